@@ -3,6 +3,7 @@ package fragswarm
 import (
 	"context"
 	"encoding/binary"
+	"math"
 	"runtime"
 	"sync"
 	"time"
@@ -54,7 +55,7 @@ func newSwarm[A p2p.Addr](x p2p.Swarm[A], mtu int) *swarm[A] {
 }
 
 func (s *swarm[A]) Tell(ctx context.Context, addr A, data p2p.IOVec) error {
-	if p2p.VecSize(data) > s.mtu {
+	if p2p.VecSize(data) > s.MTU() {
 		return p2p.ErrMTUExceeded
 	}
 	underMTU := s.Swarm.MTU() - Overhead
@@ -77,16 +78,21 @@ func (s *swarm[A]) Tell(ctx context.Context, addr A, data p2p.IOVec) error {
 		return s.Swarm.Tell(ctx, addr, msg)
 	}
 
+	if total > math.MaxUint8 {
+		// part and total travel in 8-bit header fields
+		return p2p.ErrMTUExceeded
+	}
+	total8 := uint8(total)
 	eg := errgroup.Group{}
 	for part := 0; part < total; part++ {
-		part := part
+		part8 := uint8(part)
 		start := underMTU * part
 		end := size
 		if start+underMTU < end {
 			end = start + underMTU
 		}
 		eg.Go(func() error {
-			msg := newMessage(id, uint8(part), uint8(total), data2[start:end])
+			msg := newMessage(id, part8, total8, data2[start:end])
 			return s.Swarm.Tell(ctx, addr, msg)
 		})
 	}
@@ -154,6 +160,10 @@ func (s *swarm[A]) handleTell(ctx context.Context, x p2p.Message[A]) error {
 }
 
 func (s *swarm[A]) MTU() int {
+	// a message is split into at most 255 parts
+	if max := (s.Swarm.MTU() - Overhead) * math.MaxUint8; max < s.mtu {
+		return max
+	}
 	return s.mtu
 }
 
